@@ -1,0 +1,1 @@
+//! Verification doors: udp (cfg(trusttunnel_verif) only)
